@@ -542,6 +542,24 @@ def gen_use(quick, seed):
                            'probe(pv(1), use("b.p"), pv(2))', 'for ; use("b.p"); { probe(3)\nbreak }', 'q = [pv(1), use("c.p"), pv(2)]',
                            'for v in [use("b.p")] { probe(v) }', '(use("b.p"))', 'm = {"k": use("b.p")}', 'for i = 0; i < 2; use("b.p") { i = i + 1 }']):
         out.append(ps("use:expr:%d" % i, "probe(0)\n" + t + "\nprobe(7)", pt=STD_PT, extra=xb, tag="use() in expression position (unspecified)"))
+    # use() as the first thing its statement evaluates (value of add_key, source of an assignment, the argument of probe): specified -
+    # the callee runs first, the call yields "no value", a callee's error carries every call site (add_key adds its own)
+    lead_forms = ['add_key(ku, use("b.p"))', 'q = use("b.p")', 'probe(use("b.p"))']
+    lead_callees = [("ok", {"b.p": "probe(x, y)\ny = 2\nx = 5\nadd_key(kb, y)\nadd_key(ku, 4)\nprobe(x, y, fi, ku)", "c.p": "probe(3)"}),
+                    ("fail", {"b.p": "probe(8)\nq = 1 + nil\nprobe(9)", "c.p": "probe(3)"}),
+                    ("failkey", {"b.p": "probe(8)\nadd_key(kq, 1 + nil)", "c.p": "probe(3)"}),
+                    ("deepfail", {"b.p": 'probe(8)\nuse("c.p")\nprobe(9)', "c.p": "add_key(kc, 3)\nq = 1 + nil"}),
+                    ("deeplead", {"b.p": 'probe(8)\nadd_key(kb, use("c.p"))\nprobe(9)', "c.p": "add_key(kc, 3)\nq = 1 + nil"}),
+                    ("deepok", {"b.p": 'x = 3\nadd_key(kb, use("c.p"))\nprobe(x, kb, kc)', "c.p": "add_key(kc, 3)\nx = 9\nprobe(x)"}),
+                    ("exit", {"b.p": "probe(8)\nadd_key(kb, 1)\nif fi { exit() }\nprobe(9)", "c.p": "probe(3)"})]
+    lead_wraps = ["%s", "if true {\n%s\n}", "for v in [1, 2] {\n%s\nprobe(v)\n}"]
+    li = 0
+    for form in lead_forms:
+        for cname, extra in lead_callees:
+            for w in (lead_wraps if not quick else lead_wraps[:2]):
+                li += 1
+                out.append(ps("use:lead:%s:%d" % (cname, li), "x = 1\nprobe(0, x)\n" + (w % form) + "\nprobe(7, x, q, ku, kb)", pt=STD_PT, extra=extra,
+                              tag="use() as the first thing its statement evaluates"))
     # the use() call is the very first token of its script (offset 0), also in a script that only forwards
     for i, (m, b, c) in enumerate([('use("b.p")\nprobe(1)', 'use("c.p")', "q = 1 + nil"), ('use("b.p")', 'use("c.p")\nprobe(2)', "probe(3)\nq = len(1, 2)" if False else "probe(3)\nq = 1 + nil"),
                                    ('probe(0)\nuse("b.p")', 'use("c.p")', 'add_key(kq, 1 + nil)'), ('use("b.p")', "q = 1 + nil", "probe(1)"),
@@ -740,6 +758,12 @@ CHECK_TEMPLATES = [
     "x = z[@:]", "x = z[:@]", "x = z[::@]", "x = z[1:@]", "x = z[1::@]", "x = z[:1:@]", "x = z[1:2:@]", "x = z[@:1:1]", "x = z[@::1]",
     'x = "abc"[@:]', "x = [1, 2][::@]", "x = z[1:][@:]", "x = len(z)[::@]",
     "len(@)", "add_key(k, @)", "probe(1, @)", "probe(@, 1)", "len(len(@))", "pv(@)", "probe(a = @)", "add_key(k, [1, {\"q\": @}])",
+    # after a valid break / continue earlier in the same loop (in a branch, or unconditional): later statements, later arguments,
+    # the post clause and enclosing blocks of that loop are checked like any other
+    "for v in [1] { if v { continue }\ny = 1\ny = @ }", "for ;; { if 1 { break }\ny = @ }", "for i = 0; i < 3; i = @ { if i { continue } }",
+    "for v in [1] { if v { break }\nprobe(1, @) }", "for v in [1] { continue\ny = @ }", "for ;; { break\ny = @ }",
+    "for v in [1] { if v { if v { continue } }\nif v { y = 1\ny = @ } }", "for v in [1] { for w in [1] { if w { continue } }\ny = 1\ny = @ }",
+    "for ;; { break }\nfor ;; { y = 1\ny = @\nbreak }", "for v in [1] { if v { break } elif 1 { y = 1\ny = @ } }",
 ]
 CHECK_OFFENDERS_V1 = [
     "nosuch()", "nosuch(1, 2)", "len()", "len(1, 2)", "add_key()", "add_key(1)", "add_key(a, 1, 2)", "get_key()", "get_key(1)", "drop_key(1)",
@@ -920,6 +944,28 @@ def gen_builtins(quick, seed):
             n += 1
             out.append(ps("bi:%d" % n, 'cast(k, "%s")\nprobe(k)' % T, pt={"meas": "m", "tags": {"tg": "tv"}, "fields": {"k": txt, "fi": 7}},
                           tag="cast of numeric-looking text"))
+    # one call site executed several times with different inputs (a loop round each): nothing a call site computed on an earlier
+    # execution - a subject, a template, a converted argument - may be reused on a later one
+    vlists = ['["  aXb \\t", "caat", 7, "a%20b+c"]', '["12", true, "ab", 1.5]', '["[1,\\"a\\",null]", "nul", "-3"]']
+    for call in BCALLS:
+        if "\n" in call:
+            continue
+        for li, vl in enumerate(vlists):
+            if quick and rng.random() < 0.5:
+                continue
+            for how in ("var", "field"):
+                n += 1
+                setk = "k = v" if how == "var" else "add_key(k, v)"
+                out.append(ps("bi:%d" % n, "for v in %s {\n%s\n%s\nprobe(k)\n}" % (vl, setk, call),
+                              pt={"meas": "m", "tags": {"tg": "tv"}, "fields": {"fi": 7, "fs": "sv", "message": "msg"}},
+                              tag="call site executed repeatedly with a changing subject (%s)" % how))
+    for t in ['for f in ["a=%d;", "b=%v;", "", "c", "%s%s"] {\nprintf(f, 1)\n}', 'for f in ["a=%d;", "b=%v;"] {\nadd_key(kf, f)\nprintf(kf, 2)\n}',
+              'f = "x=%v;"\nprintf(f, 1)\nf = "y=%v;"\nprintf(f, 2)', 'for i = 0; i < 3; i = i + 1 {\nf = "r" + "=%d;"\nif i == 1 {\nf = "q=%d;"\n}\nprintf(f, i)\n}',
+              'for v in [1, "s", nil, 1.5] {\nprintf("%v;", v)\nstrfmt(k, "<%v>", v)\nprobe(k)\n}', 'for v in ["int", "str"] {\nfi = v\nprintf(fi)\n}',
+              'for v in ["a", "b"] {\nadd_key(k, v)\nset_tag(t2, k)\nrename(k2, k)\nprobe(t2, k2)\n}', 'for v in [" a ", " b "] {\nadd_key(k, v)\ntrim(k)\nset_measurement(k)\nprobe(k)\n}']:
+        n += 1
+        out.append(ps("bi:%d" % n, t, pt={"meas": "m", "tags": {"tg": "tv"}, "fields": {"fi": 7, "fs": "sv", "message": "msg"}},
+                      tag="call site executed repeatedly with a changing template / argument"))
     # sequences: the return register is not stale between calls; bystanders untouched
     J1, J2 = '"[1,\\"a\\",null]"', '"{\\"a\\":{\\"b\\":[true]}}"'     # texts of the model's JSON catalog
     seqs = ['a = load_json(%s)\na[0] = 99\nb = load_json(%s)\nprobe(a, b)' % (J1, J1),
@@ -1005,6 +1051,12 @@ def gen_extract(quick, seed):
             if "var" in sit:
                 lines.append("k = %s" % _q(g["s"]))
             add("\n".join(lines + [call, probe]), pt, "grok: subject as %s" % sit)
+        if g["s"] == "":
+            # the empty subject reached through a nil field, and through a variable holding nil
+            pt = {"meas": "m", "tags": dict(base_tags), "fields": {"fi": 7, "w": "oldw", "k": None}}
+            add("\n".join(pre + [call, probe]), pt, "grok: nil field as subject")
+            pt = {"meas": "m", "tags": dict(base_tags), "fields": {"fi": 7, "w": "oldw"}}
+            add("\n".join(pre + ["k = nil", call, probe]), pt, "grok: nil variable as subject")
         # captures land on existing keys of the other kind / are returned through an if
         pt = {"meas": "m", "tags": {"w": "tagw", "n": "tagn"}, "fields": {"k": g["s"], "d": 1.5}}
         add("\n".join(pre + ["if %s {\nprobe(1)\n} else {\nprobe(2)\n}" % call[5:], probe]), pt, "grok as a condition; captures onto existing tags")
